@@ -173,9 +173,10 @@ def gen_case(chk, i):
     if i % 20 == 11:
         # two threads hand one CPU over to each other through the documented intermediate states: B runs and
         # pauses, A executes on the same CPU, B warms up while A still runs, A cools down and ends, B resumes
-        a = ["init %d" % tb, "vercheck", "cpu 0 0", "require nosv 2.0.0", "barrier",
-             "ev OHx now %s" % obs.i32(0, tb, 0).hex(), "ev OB. now 0a0a", "barrier", "barrier",
-             "ev OHc now -", "ev OB. now 0b0b"] + (["ev OHp now -", "ev OHr now -"] if (i // 20) % 2 else []) + \
+        a = ["init %d" % tb, "vercheck", "cpu 0 0", "cpu 1 1", "require nosv 2.0.0", "barrier",
+             "ev OHx now %s" % obs.i32(0, tb, 0).hex(), "ev OB. now 0a0a", "barrier", "barrier"] + \
+            (["ev OAr now %s" % obs.i32(1, tb + 1).hex()] if (i // 20) % 3 == 1 else []) + \
+            ["ev OHc now -", "ev OB. now 0b0b"] + (["ev OHp now -", "ev OHr now -"] if (i // 20) % 2 else []) + \
             ["ev OHe now -", "barrier", "flush", "free"]
         b = ["init %d" % (tb + 1), "vercheck", "require nosv 2.0.0", "ev OHx now %s" % obs.i32(0, tb + 1, 0).hex(),
              "ev OB. now 0101", "ev OHp now -", "barrier", "barrier", "ev OHw now -", "barrier", "barrier",
@@ -186,7 +187,7 @@ def gen_case(chk, i):
     for ops in secs:
         out.append("thread"); out.extend(ops); out.append("end")
     out.append("fini")
-    return {"case": i, "mode": mode, "threads": nth, "ncpus": 1 if mode == "handoff" else nth, "targets": infos[0]["targets"],
+    return {"case": i, "mode": mode, "threads": nth, "ncpus": 2 if mode == "handoff" else nth, "targets": infos[0]["targets"],
             "tmpdir": (i % 5 == 4) or (nth > 1 and i % 4 == 0) or mode == "huge", "shortwrite": (i if i % 4 == 3 else 0), "nostdin": (i % 7 == 5), "script": "\n".join(out) + "\n"}
 
 
